@@ -266,3 +266,12 @@ Definition canon_multiset (l : list json) : list json := sort_json l.
 Definition canon_set (l : list json) : list json := dedup_sorted_json (sort_json l).
 
 Definition jstrs_of (l : list string) : json := JArr (map JStr l).
+
+(** Arrays are sets for the matcher: sort every array (deeply), so that two
+    values that differ only in the order of array elements compare equal. *)
+Fixpoint jsort_arrays (j : json) : json :=
+  match j with
+  | JArr l => JArr (sort_json (map jsort_arrays l))
+  | JObj kvs => JObj (map (fun kv => (fst kv, jsort_arrays (snd kv))) kvs)
+  | _ => j
+  end.
